@@ -136,7 +136,7 @@ def run_C06(ctx):
     fuzz = []
     for s in core.sample(ctx.rng, scen, 3000 if quick else 30000):
         fuzz.append(dict(s, fuzz=ctx.rng.choice([1, 4, 5, 6, 9, 17, 64, 300])))
-    tf = core.run_runner(ctx, "resp", scen + fuzz, tag="resp")
+    tf = core.run_runner(ctx, "resp", scen + fuzz, tag="resp", args=["-hang", "20s"])
     acc, rej = core.validate(ctx, "TraceResp", tf, tag="resp", sigfn=sig_resp)
     core.judge(ctx, rej)
     return core.finish(ctx, rule="TLC enumerates response classes (status x content type x encoding header x gRPC "
